@@ -149,6 +149,18 @@ def check_list(case):
 
 
 def draw_text(t):
+    if t.chance(6):
+        # containers nested close to the documented limit of 100 levels (the embedding adds one)
+        k = 90 + t.below(10)
+        inner = t.choice(['- item', 'text', '# h', '1. x', '> q', '- a\n  b', '```\ncode'])
+        if t.chance(128):
+            return ''.join('> ' for _ in range(k)) + inner.split('\n')[0]
+        lines, col = [], 0
+        for i in range(k):
+            m = t.choice(['-', '1.', '*'])
+            lines.append(' ' * col + m + ' x')
+            col += len(m) + 1
+        return '\n'.join(lines + [' ' * col + inner.split('\n')[0]])
     _, text = pools.any_text(t, 200)
     text = _STRUCTURAL_TAB.sub(' ', text).rstrip('\n')      # tabs that directly follow a letter stay
     ls = text.split('\n')
